@@ -187,7 +187,9 @@ package kvm
 //@ spec func u256(x *uint256.Int) int
 //@ func calcMemSize64WithUint(off *uint256.Int, length64 uint64) (r uint64, overflow bool)
 //@   for C10
+//@   requires off != nil
 //@   ensures [zeroLengthNeedsNothing] length64 == 0 ==> r == 0 && !overflow
+//@   ensures [sumOrOverflow] length64 != 0 ==> (overflow <==> !(off[1] == 0 && off[2] == 0 && off[3] == 0) || off[0] + length64 > 18446744073709551615) && (!overflow ==> r == off[0] + length64)
 //@ func memoryCall(stack *Stack) (r uint64, overflow bool)
 //@   for C10
 //@   ensures [coversBothRegions] !overflow ==> r >= x && r >= y && (r == x || r == y)
@@ -207,6 +209,71 @@ package kvm
 //@ func minStack(pops, push int) (r int)
 //@   for C10
 //@   ensures r == pops
+// DUPn needs n items and pushes one more (so it is refused on a full stack); SWAPn needs n items and
+// leaves the height unchanged.
+//@ func minDupStack(n int) (r int)
+//@   for C10
+//@   requires 0 <= n && n <= 1023
+//@   ensures r == n
+//@ func maxDupStack(n int) (r int)
+//@   for C10
+//@   requires 0 <= n && n <= 1023
+//@   ensures [dupNeedsOneFreeSlot] r == 1023
+//@ func minSwapStack(n int) (r int)
+//@   for C10
+//@   requires 0 <= n && n <= 1024
+//@   ensures r == n
+//@ func maxSwapStack(n int) (r int)
+//@   for C10
+//@   requires 0 <= n && n <= 1024
+//@   ensures [swapKeepsHeight] r == 1024
+
+// CALLCODE charges the 9000 value-transfer surcharge exactly when its value operand (third from the
+// top) is non-zero -- the same condition under which opCallCode adds the 2300 stipend to the callee.
+//@ func gasCallCode(kvm *KVM, contract *Contract, stack *Stack, mem *Memory, memorySize uint64) (r uint64, err error)
+//@   for C10 C09
+//@   requires kvm != nil && contract != nil && stack != nil && mem != nil && len(stack.data) >= 7
+//@   modifies kvm.callGasTemp, mem.lastGasCost
+//@   atcall callGas requires [calleeGasFromWhatRemains] availableGas == contract.Gas && base == gas
+//@   ensures [surchargeIffValueNonZero] err == nil ==> r == memoryGas + ite(stack.data[len(stack.data) - 3] != uint256.Int{}, 9000, 0) + kvm.callGasTemp
+
+// CALL: the value-transfer surcharge (and the new-account surcharges) are keyed on the value operand.
+//@ func gasCall(kvm *KVM, contract *Contract, stack *Stack, mem *Memory, memorySize uint64) (r uint64, err error)
+//@   for C10 C09
+//@   requires kvm != nil && contract != nil && stack != nil && mem != nil && len(stack.data) >= 7 && kvm.StateDB != nil
+//@   modifies kvm.callGasTemp, mem.lastGasCost
+//@   atcall callGas requires [calleeGasFromWhatRemains] availableGas == contract.Gas && base == gas
+//@   ensures [surchargeIffValueNonZero] err == nil && stack.data[len(stack.data) - 3] != uint256.Int{} ==> r >= memoryGas + 9000 + kvm.callGasTemp
+//@   ensures [noSurchargeWithoutValue] err == nil && stack.data[len(stack.data) - 3] == uint256.Int{} ==> r <= memoryGas + 25000 + kvm.callGasTemp
+//@ func gasDelegateCall(kvm *KVM, contract *Contract, stack *Stack, mem *Memory, memorySize uint64) (r uint64, err error)
+//@   for C10 C09
+//@   requires kvm != nil && contract != nil && stack != nil && mem != nil && len(stack.data) >= 6
+//@   modifies kvm.callGasTemp, mem.lastGasCost
+//@   atcall callGas requires [calleeGasFromWhatRemains] availableGas == contract.Gas && base == gas
+//@   ensures [includesCalleeGas] err == nil ==> r >= kvm.callGasTemp
+//@ func gasStaticCall(kvm *KVM, contract *Contract, stack *Stack, mem *Memory, memorySize uint64) (r uint64, err error)
+//@   for C10 C09
+//@   requires kvm != nil && contract != nil && stack != nil && mem != nil && len(stack.data) >= 6
+//@   modifies kvm.callGasTemp, mem.lastGasCost
+//@   atcall callGas requires [calleeGasFromWhatRemains] availableGas == contract.Gas && base == gas
+
+// The callee gets at most all but one 64th of what remains after the call's own cost.
+//@ func callGas(availableGas, base uint64, callCost *uint256.Int) (r uint64, err error)
+//@   for C10 C09
+//@   requires callCost != nil
+//@   modifies nothing
+//@   ensures [allButOne64th] err == nil && base <= availableGas ==> r <= (availableGas - base) - (availableGas - base) / 64
+
+// getData returns the window [start, start+size) of data, zero-padded beyond its end, for every start:
+// CALLDATALOAD/CALLDATACOPY/CODECOPY/EXTCODECOPY pass offsets straight from the stack (saturated to
+// 2^64-1). The size is bounded by what memory expansion can have paid for.
+//@ func getData(data []byte, start uint64, size uint64) (r []byte)
+//@   for C10
+//@   safe
+//@   requires size <= 137438953440
+//@   modifies nothing
+//@   ensures [paddedToSize] len(r) == size
+//@   ensures [windowOfData] forall i int :: 0 <= i && i < size ==> r[i] == ite(start + i < len(data), data[start + i], 0)
 // CHAINID pops nothing and pushes one word.
 //@ func enable1344(jt *JumpTable)
 //@   for C10
